@@ -64,6 +64,8 @@ namespace pika::verif {
         pu_suspend, pu_resume, select_active_pu,
         // condition_variable / condition_variable_any (obj = shared data)
         cva_before_lock, cva_after_user_unlock,
+        // MPI polling (a = error code, b = 0 top drain loop, 1 bottom drain loop, 2 single threaded)
+        mpi_request_queued, mpi_ready_enqueued, mpi_ready_dequeued, mpi_callback_done,
         site_count
     };
     // clang-format on
